@@ -173,7 +173,16 @@ def check(ctx, case):
         ctx.count("generator_premise_rejections")
         ctx.tick()
         return
-    records, exc, tracker = tc.run_history(cfg, frames)
+    # frame indices need not be consecutive (tracking every s-th frame of a video), and max_tracks may equal the number of animals
+    K_ = len({d["id"] for fr in frames for d in fr})
+    i_ = abs(int(case.get("i", 0)))
+    fstep, f0 = [1, 1, 2, 5, 11][i_ % 5], [0, 0, 3, 100][i_ % 4]
+    extra = {"max_tracks": [None, None, K_, K_ + 2][(i_ // 5) % 4]} if cfg["candidates_method"] == "local_queues" else {}
+    if fstep > 1:
+        ctx.count("histories_with_frame_index_stride")
+    if extra.get("max_tracks") == K_:
+        ctx.count("histories_with_max_tracks_equal_animals")
+    records, exc, tracker = tc.run_history(cfg, frames, frame_index=lambda f: f0 + fstep * f, extra_cfg=extra)
     ctx.count("histories")
     small = {"i": case["i"], "cfg": cfg, "frames": frames, "premise": case["premise"]}
     if exc is not None:
